@@ -8,6 +8,8 @@ import (
 	"encoding/hex"
 	"encoding/json"
 	"fmt"
+	"github.com/MichaelMure/git-bug/cache"
+	_select "github.com/MichaelMure/git-bug/commands/select"
 	"os"
 	"strings"
 
@@ -320,6 +322,60 @@ func session(out *hx.Writer, round int) {
 			}
 		}
 	}
+	// the command line's resolution (commands/select): no selection, a selected bug, a selection that no longer exists
+	selEmit := func(p string, hasArg bool, sel int) {
+		args := []string{}
+		if hasArg {
+			args = []string{p, "rest"}
+		}
+		ev := map[string]interface{}{"ev": "ResolveSelected", "prefix": digits(p), "hasarg": hasArg, "sel": sel, "matching": []int{}, "used": false, "cleared": false}
+		b, rest, err := _select.Resolve[*cache.BugCache](c, bug.Typename, bug.Namespace, c.Bugs(), args)
+		switch {
+		case err == nil:
+			ev["outcome"], ev["matching"], ev["used"] = "found", []int{bugIdx[b.Id().String()]}, len(rest) < len(args)
+		case _select.IsErrNoValidId(err):
+			ev["outcome"] = "novalid"
+		default:
+			o, m := classify(err, bugIdx)
+			if m == nil {
+				m = []int{}
+			}
+			ev["outcome"], ev["matching"] = o, m
+		}
+		if _, serr := c.LocalStorage().Stat("select/" + bug.Namespace); serr != nil {
+			ev["cleared"] = true
+		}
+		out.Put(ev)
+	}
+	for _, sel := range []int{0, 2, -1} {
+		setSel := func() {
+			switch sel {
+			case 0:
+				_ = _select.Clear(c, bug.Namespace)
+			case -1:
+				hx.Must(_select.Select(c, bug.Namespace, entity.Id(strings.Repeat("e", 64))))
+			default:
+				hx.Must(_select.Select(c, bug.Namespace, bugs[sel-1].Id()))
+			}
+		}
+		setSel()
+		selEmit("", false, sel)
+		for bi, b := range bugs {
+			if bi > 3 {
+				break
+			}
+			id := b.Id().String()
+			for _, L := range []int{0, 1, 2, 3, 4, 5, 7, 10, 64} {
+				for _, p := range []string{id[:L], alter(id[:L])} {
+					if sel == -1 {
+						setSel() // a resolution that falls back on it forgets it
+					}
+					selEmit(p, true, sel)
+				}
+			}
+		}
+	}
+	_ = _select.Clear(c, bug.Namespace)
 	for _, cr := range crefs {
 		for L := 0; L <= 64; L++ {
 			queryComment(cr.combined[:L])
